@@ -28,6 +28,7 @@ fn gen_node(r: &mut Rng) -> Node {
         Err(_) => { NODE_NEW_PANICS.with(|c| c.borrow_mut().push(i)); Node::new(i & !(7 << 61), h, l) }
     }
 }
+thread_local! { pub static HAND_MISMATCH: std::cell::RefCell<Option<String>> = std::cell::RefCell::new(None); }
 thread_local! { pub static NODE_NEW_PANICS: std::cell::RefCell<Vec<u64>> = std::cell::RefCell::new(vec![]); }
 fn gen_nodes(r: &mut Rng) -> Vec<Node> {
     let n = match r.below(6) { 0 => 0, 1 => 1, 2 => 8, _ => r.below(9) };
@@ -42,14 +43,33 @@ pub fn nodes_txt(ns: &[Node]) -> String {
     if ns.is_empty() { "-".into() } else { ns.iter().map(node_txt).collect::<Vec<_>>().join(",") }
 }
 
+// ---- independent encoder: compact-encoding written out by hand, fields in protocol order
+fn v_uint(o: &mut Vec<u8>, n: u64) {
+    if n < 253 { o.push(n as u8) } else if n <= 0xffff { o.push(0xfd); o.extend_from_slice(&(n as u16).to_le_bytes()) }
+    else if n <= 0xffff_ffff { o.push(0xfe); o.extend_from_slice(&(n as u32).to_le_bytes()) } else { o.push(0xff); o.extend_from_slice(&n.to_le_bytes()) }
+}
+fn v_buf(o: &mut Vec<u8>, b: &[u8]) { v_uint(o, b.len() as u64); o.extend_from_slice(b); }
+fn v_node(o: &mut Vec<u8>, n: &Node) { v_uint(o, n.index()); v_uint(o, n.len()); o.extend_from_slice(n.hash()); }
+fn v_nodes(o: &mut Vec<u8>, ns: &[Node]) { v_uint(o, ns.len() as u64); for n in ns { v_node(o, n); } }
+pub trait HandEnc { fn hand(&self) -> Vec<u8>; }
+impl HandEnc for Node { fn hand(&self) -> Vec<u8> { let mut o = vec![]; v_node(&mut o, self); o } }
+impl HandEnc for RequestBlock { fn hand(&self) -> Vec<u8> { let mut o = vec![]; v_uint(&mut o, self.index); v_uint(&mut o, self.nodes); o } }
+impl HandEnc for RequestSeek { fn hand(&self) -> Vec<u8> { let mut o = vec![]; v_uint(&mut o, self.bytes); o } }
+impl HandEnc for RequestUpgrade { fn hand(&self) -> Vec<u8> { let mut o = vec![]; v_uint(&mut o, self.start); v_uint(&mut o, self.length); o } }
+impl HandEnc for DataBlock { fn hand(&self) -> Vec<u8> { let mut o = vec![]; v_uint(&mut o, self.index); v_buf(&mut o, &self.value); v_nodes(&mut o, &self.nodes); o } }
+impl HandEnc for DataHash { fn hand(&self) -> Vec<u8> { let mut o = vec![]; v_uint(&mut o, self.index); v_nodes(&mut o, &self.nodes); o } }
+impl HandEnc for DataSeek { fn hand(&self) -> Vec<u8> { let mut o = vec![]; v_uint(&mut o, self.bytes); v_nodes(&mut o, &self.nodes); o } }
+impl HandEnc for DataUpgrade { fn hand(&self) -> Vec<u8> { let mut o = vec![]; v_uint(&mut o, self.start); v_uint(&mut o, self.length); v_nodes(&mut o, &self.nodes); v_nodes(&mut o, &self.additional_nodes); v_buf(&mut o, &self.signature); o } }
+
 /// Evaluate one value: encoded_size, encode, decode(enc), decode(enc ++ tail), every strict prefix.
-fn eval<T: CompactEncoding + PartialEq + std::fmt::Debug>(v: &T, txt: impl Fn(&T) -> String) -> (String, usize, usize) {
+fn eval<T: CompactEncoding + PartialEq + std::fmt::Debug + HandEnc>(v: &T, txt: impl Fn(&T) -> String) -> (String, usize, usize) {
     let r = catch_unwind(AssertUnwindSafe(|| {
         let size = v.encoded_size().map_err(|e| format!("{e}"))?;
         let mut buf = vec![0u8; size];
         let rest_len = v.encode(&mut buf).map_err(|e| format!("{e}"))?.len();
         let written = size - rest_len;
         let mut out = format!("size={} written={} enc={}", size, written, hex(&buf));
+        if v.hand() != buf { HAND_MISMATCH.with(|c| *c.borrow_mut() = Some(hex(&v.hand()))); }
         match T::decode(&buf) {
             Ok((d, rest)) => { let _ = write!(out, " dec=ok:{} rest={} same={}", txt(&d), rest.len(), &d == v); }
             Err(_) => out.push_str(" dec=err"),
@@ -120,6 +140,9 @@ pub fn run(seed: u64, n: usize) -> (Vec<String>, Vec<String>, CodecStats) {
         };
         if plen > 1 && seen.insert(crate::rng::fnv(&out)) { st.distinct += 1; }
         if !ok { st.oracle_failures.push((format!("codec-oracle:{name}"), format!("{op} => {out}"), ops.len())); }
+        if let Some(h) = HAND_MISMATCH.with(|c| c.borrow_mut().take()) {
+            st.oracle_failures.push((format!("codec-bytes:{name}"), format!("{op} => the crate wrote {} but the compact-encoding of the fields in protocol order is {h}", out.split(' ').find(|s| s.starts_with("enc=")).unwrap_or("")), ops.len()));
+        }
         let panics: Vec<u64> = NODE_NEW_PANICS.with(|c| c.borrow_mut().drain(..).collect());
         for i in panics {
             st.oracle_failures.push((format!("node-new-panic:index={i}"), format!("Node::new(index={i}, ..) panicked (arithmetic overflow) while building a {name}; the value cannot even be constructed, so its encoding cannot round-trip"), ops.len()));
